@@ -21,14 +21,16 @@
    value form), C04_quoted_value_verbatim, C04_group_bracket_attr (`(` `)` in attribute values end to end).
    _partial: C04_wrap_implicit_partial is parametric in how X converts and assumes X leaves the converter
    state alone (no nested repeater inside X); C04_quoted_scanner_partial is the scanner lemma that
-   C04_attr_value_literal builds on (kept).  Not covered by a theorem: `$` numbering / fields inside text
-   and attribute values, and text on elements that also carry attributes (`a[b]{t}`) -- these are covered
-   by the model/implementation correspondence and the oracle. *)
+   C04_attr_value_literal builds on (kept).  C04_text_with_attributes / C04_expand_text_element: text on
+   an element that also carries `#id`, `.class`, `[...]` (`a.c[b=1]{t}`), front end and whole pipeline.
+   Not covered by a theorem: `$` numbering / fields inside text and attribute values, text written
+   between the attribute parts (`a{t}.c`), text under the haml / pug / slim formatters -- these are
+   covered by the model/implementation correspondence and the oracle. *)
 From Coq Require Import String.
 From Emmet Require Import lib.Base lib.StrLit model.MarkupTokenizer model.MarkupParser model.MarkupConvert
      model.MarkupResolve proofs.ParserSpine proofs.TextSpec proofs.TextProofs proofs.TextParse proofs.TextLiteral
      proofs.TextConvert proofs.TextForest proofs.TextWrap proofs.TextWrapLeaf model.OutStream model.FormatHtml
-     proofs.TextStream proofs.TextHtml proofs.TextPlain proofs.AttrText proofs.AttrTextParse proofs.AttrTextConvert.
+     proofs.TextStream proofs.TextHtml proofs.TextPlain proofs.AttrText proofs.AttrTextParse proofs.AttrTextConvert proofs.AttrProofs model.MarkupExpand proofs.AttrTextExpand.
 
 (* text_literal.  For EVERY payload T whose braces balance modulo escapes and whose `$` are escaped --
    operators, brackets, quotes, `*`, white space, line breaks, unicode included -- the front end
@@ -129,6 +131,40 @@ Theorem C04_group_bracket_attr :
       Ok [ANode (Some name) None None (Some [mkAAttr (Some n) (Some [VStr v]) VRaw false false false]) [] false].
 Proof. exact group_bracket_attr. Qed.
 Print Assumptions C04_group_bracket_attr.
+
+(* text_with_attributes.  C04_text_literal for elements that also carry attributes: for EVERY element of
+   the written grammar of proofs/AttrText.v -- name, any `#id` / `.class` / `[ ... ]` parts, then `{T}`
+   with T any balanced payload -- the front end gives the ONE node whose value is the payload with
+   escapes resolved, character for character ([elem_text_value]), beside the written attributes. *)
+Theorem C04_text_with_attributes :
+  forall (jsx : bool) (env : cenv) (max_repeat : option N) (e : selem),
+    selem_ok e -> jsx_ok jsx e -> ce_text env = WNone ->
+    parse_abbr jsx env max_repeat (elem_text e) =
+      Ok [ANode (Some (se_name e)) (elem_text_value e) None (attrs_opt (written_mentions e)) [] false].
+Proof. exact element_attributes_text. Qed.
+Print Assumptions C04_text_with_attributes.
+
+(* ... and through the whole pipeline (markup.parse + HTML formatter): expand writes
+   <name attr...>TEXT</name>  with TEXT = the payload, escapes resolved, nothing else between the tags.
+   Hypotheses as in C03_expand_element_text; [value_inline]: the text has no line break and does not
+   start with a block-level tag (such text is laid out on its own lines: C12). *)
+Theorem C04_expand_text_element :
+  forall (x : xconfig) (e : selem),
+    let m := xc_m x in
+    let c := xc_o x in
+    selem_ok e -> jsx_ok (mc_jsx m) e -> mc_text m = WNone ->
+    assoc_str (se_name e) (mc_snippets m) = None -> match_lorem (se_name e) = LNo ->
+    xsl_rule_applies m e = false ->
+    html_family (mc_syntax m) -> oc_comment_enabled c = false ->
+    oc_format_leaf c = false -> mem_str (se_name e) (oc_format_force c) = false ->
+    let attrs := merge_spec (mc_reverse_attrs m) [] (written_mentions e) in
+    Forall (fun a => form_nl_free (attr_out_spec c a)) attrs ->
+    value_inline c (elem_text_value e) ->
+    expand_markup_str x (elem_text e) =
+      Ok (c_lt :: tag_name c (se_name e) ++ attrs_text_out c attrs
+          ++ [c_gt] ++ elem_out_text e ++ [c_lt; c_slash] ++ tag_name c (se_name e) ++ [c_gt]).
+Proof. exact expand_element_text. Qed.
+Print Assumptions C04_expand_text_element.
 
 (* placeholder_total: `$#` always yields a string -- the line of the closest implicit repeater, the
    whole text when there is none -- never None / an internal error *)
@@ -271,6 +307,21 @@ Proof.
   split; [split; [discriminate|repeat split]|].
   split; [split; [discriminate|split; reflexivity]|].
   split; vm_compute; reflexivity.
+Qed.
+
+(* non-vacuity of text_with_attributes / expand: p.c[t=1]{a>b*3 \{x\} (y)} *)
+Example C04_text_attr_nonvacuous :
+  let x := mkX (mkMConfig (S "html") [] [] WNone None None false None [] false false)
+               (mkOconfig (mkOfmt [] [] []) [] [] (S "double") true false [] [] 0 false [] (S "html") [] false [] [] []
+                          false None None) in
+  let e := mkSElem (S "p") [PClass (S "c"); PSet [mkSAttr false (S "t") false (SUnq (S "1"))]]
+                   (Some (S "a>b*3 \{x\} (y)")) in
+  selem_ok e /\ value_inline (xc_o x) (elem_text_value e) /\
+  elem_text e = S "p.c[t=1]{a>b*3 \{x\} (y)}" /\
+  expand_markup_str x (elem_text e) = Ok (S "<p class=""c"" t=""1"">a>b*3 {x} (y)</p>").
+Proof.
+  cbv zeta. split; [split; [split; [discriminate|repeat constructor]|split; [repeat constructor; try discriminate|reflexivity]]|].
+  split; [vm_compute; repeat constructor|]. split; vm_compute; reflexivity.
 Qed.
 
 (* non-vacuity of the wrap theorems: `li{[$#]}*` over lines that look like syntax, with a blank line *)
